@@ -5,12 +5,16 @@ import base64, collections, hashlib, json
 from vlib.common import Hex
 
 ASPECT_THEOREMS = {
-    "C01": ["ps_law_extract", "ps_law_hashin", "ps_sign_then_verify", "ps_refuses_clean",
-            "deb_law_extract", "deb_law_hashin", "deb_sign_then_verify", "deb_refuses_clean", "deb_verifier_accepts_signed"],
-    "C08": ["ps_law_hashin", "ps_resign_history", "ps_is_signed_spec", "deb_law_hashin", "deb_resign_history", "deb_is_signed_spec"],
-    "C03": ["ps_law_payload", "ps_only_these_ranges_differ", "deb_law_payload", "deb_only_these_ranges_differ"],
-    "C02": ["ps_protect", "ps_protect_raw16", "deb_protect", "deb_check_sound"],
-    "C05": ["ps_hashin_eq_spec", "ps_embed_eq_spec", "deb_hashin_eq_spec", "deb_embed_eq_spec"],
+    "C01": ["ps_law_extract", "ps_law_extract_refuted", "ps_law_hashin", "ps_embed_total", "ps_refuses_clean", "ps_embed_refuses_clean",
+            "ps_refuses_clean_refuted", "ps_utf16_refused_refuted", "ps_sign_then_verify",
+            "deb_law_extract", "deb_law_extract_refuted", "deb_law_hashin", "deb_embed_total", "deb_refuses_clean", "deb_embed_refuses_clean",
+            "deb_refuses_clean_refuted", "deb_verifier_accepts_signed", "deb_sign_then_verify"],
+    "C08": ["ps_law_hashin", "ps_is_signed_spec", "ps_signed_after_embed", "ps_dom_preserved", "ps_resign_history",
+            "deb_law_hashin", "deb_is_signed_spec", "deb_wf_preserved", "deb_resign_history"],
+    "C03": ["ps_law_payload", "ps_law_payload_refuted", "ps_only_these_ranges_differ", "deb_law_payload", "deb_only_these_ranges_differ"],
+    "C02": ["ps_protect", "ps_protect_trailing_refuted", "ps_protect_separator_refuted",
+            "deb_protect", "deb_check_sound", "deb_check_order_refuted", "deb_check_shadow_refuted"],
+    "C05": ["ps_hashin_eq_spec", "ps_text_conversion_spec", "ps_embed_eq_spec", "deb_hashin_eq_spec", "deb_embed_eq_spec"],
 }
 ASPECTS = ("C01", "C02", "C03", "C05", "C08")
 
@@ -185,6 +189,31 @@ def sums(data):
     return hashlib.md5(data).hexdigest(), hashlib.sha1(data).hexdigest()
 
 
+# finding keys: FMTPS:<what> when run on its own; under a property id the keys already registered for the same defects
+KEYMAP = {
+    ("C02", "ps:trailing-content-accepted"): "C02:spec:ps:content-after-block",
+    ("C02", "ps:separator-byte-unprotected"): "C02:spec:ps:byte-before-block",
+    ("C02", "deb:member-order-unprotected"): "C02:spec:deb:members-reordered",
+    ("C03", "ps:payload-changed@foreign-block-lf"): "C03:spec:ps:payload-changed@foreign-block-lf",
+}
+
+
+def ps_outside_reason(style, data):
+    """why a script is outside the stated domain (by positions, independent of the model)"""
+    st, en = STY[style]
+    is16 = data[:2] == b"\xff\xfe"
+    w = widen if is16 else (lambda x: x)
+    first, crlf, lf = w(st + BEGIN + en + b"\r\n"), w(b"\r\n"), w(b"\n")
+    pos = 0
+    while True:
+        i = data.find(first, pos)
+        if i < 0:
+            return "marker-text-last-line"
+        if i == 0 or data[i - len(lf):i] == lf:
+            return "marker-first-line" if i < len(crlf) else "foreign-block-lf"
+        pos = i + 1
+
+
 PS_OK_AFTER_EXTRACT = (0, 50, 51)       # verifier found and decoded a block (later stages may still object)
 DEB_OK_AFTER_SCAN = (0, 13, 14, 15, 16, 20)
 
@@ -206,8 +235,8 @@ def body(ctx, replay=None):
     def potential(aspect, what, detail, obj):
         """a witness of a `_refuted` theorem reproduced on the real code: recorded; reported through ctx.violation only when the
         key is listed in known_findings.json (then it prints KNOWN-FINDING)"""
-        key = "%s:%s" % (pid, what)
-        ent = res["potential_findings"].setdefault(what, {"aspect": aspect, "detail": detail, "count": 0, "example": obj, "classes": []})
+        key = KEYMAP.get((pid, what), "%s:%s" % (pid, what))
+        ent = res["potential_findings"].setdefault(what, {"aspect": aspect, "key": key, "detail": detail, "count": 0, "example": obj, "classes": []})
         ent["count"] += 1
         cl = ((obj.get("cases") or [{}])[0].get("cls") or (obj.get("cases") or [{}])[0].get("mutation"))
         if cl and cl not in ent["classes"]:
@@ -257,9 +286,16 @@ def body(ctx, replay=None):
             if d["status"] != 0 or r["emb"] != 0:
                 # refusal: must be an error, not a crash; nothing was written (checked by the driver: intact)
                 if d["status"] == 99:
-                    potential("C01", "ps:digest-panic", "DigestPowershell panics (%s) on class %s" % (d.get("err"), c["cls"]), rp)
+                    potential("C01", "ps:digest-panic", "DigestPowershell panics (%s): the begin line is the first line or follows a line shorter than the stripped line end (class %s)" % (d.get("err"), c["cls"]), rp)
                 elif dom and d["status"] in (2,) and not rd["is16"]:
                     viol("C01", "ps:refused-wf", "a well-formed 8-bit script was refused: %s" % d.get("err"), rp)
+                elif d["status"] == 2 and rd["is16"] and len(cur) % 2 == 0:
+                    try:
+                        txt = cur[2:].decode("utf-16-le")
+                    except UnicodeDecodeError:
+                        txt = None
+                    if txt is not None and any((ord(ch) & 0xff) == 0x0a and ord(ch) != 0x0a or (ord(ch) >> 8) == 0x0a for ch in txt if ord(ch) < 0x10000):
+                        potential("C01", "ps:utf16-0a-byte-refused", "a valid UTF-16LE script containing a code unit with a 0x0A byte (e.g. U+010A, U+0A41) is refused: %s (class %s)" % (d.get("err"), c["cls"]), rp)
                 break
             n_oracle += 1
             out = bytes.fromhex(r["out"])
@@ -290,7 +326,11 @@ def body(ctx, replay=None):
                 # outside the stated domain: the witnesses of the *_refuted theorems; replayed here against the real code
                 ref_imprint = None
                 if ro["payload"] != rd["payload"]:
-                    potential("C03", "ps:content-changed-outside-domain", "signing changes what the specification reader sees as content (bare LF in front of an existing block, or last line is the marker text): class %s" % c["cls"], rp)
+                    why = ps_outside_reason(style, cur)
+                    potential("C03", "ps:payload-changed@" + why,
+                              {"foreign-block-lf": "an existing signature block preceded by LF instead of CR LF: the signer strips two bytes, the last character of the script text is lost",
+                               "marker-text-last-line": "the last line of an unsigned script is the begin-marker text: after signing the specification reader (and the verifier) take it for the begin line",
+                               }.get(why, "signing changes what the specification reader sees as content (%s)" % why) + " (class %s)" % c["cls"], rp)
                 if r["ver"] not in PS_OK_AFTER_EXTRACT:
                     potential("C01", "ps:signed-but-unverifiable", "signing succeeds but VerifyPowershell then fails (%s): class %s" % (r.get("ver_err"), c["cls"]), rp)
             cur = out
@@ -610,6 +650,7 @@ def body(ctx, replay=None):
                     elif r["ver"] == 99 and exg[0] < 100:
                         # a panic after the member walk (checkSig's line splitting): outside the model, recorded
                         res["notes"].append("deb: signdeb.Verify panics after the member walk on class %s (%s)" % (c["cls"], r.get("ver_err")))
+                        potential("C01", "deb:verify-panic-after-sign", "signdeb.Sign succeeds and signdeb.Verify then panics in checkSig (%s) on class %s" % (r.get("ver_err"), c["cls"]), {"cases": [slim]})
                 if bool(wf) != pd:
                     bad("deb:domain-definitions-differ", slim, [wf, pd])
                 ents = ar_read(fb)
@@ -728,7 +769,7 @@ def run(ctx, replay=None):
                         "and of a signed package; non-trivial = distinct (format, style/encoding/signedness or member layout, class) combinations inside the stated domains that were signed successfully (measured)",
                 "samples": cov_body["samples"], "input_distribution": cov_body.get("kinds"), "mutation_sweep": cov_body.get("mutations"),
                 "case_counts": cov_body.get("cases"), "model_mismatches": cov_body.get("mismatches"), "aspect_theorems": ASPECT_THEOREMS,
-                "potential_findings": {k: {"aspect": v["aspect"], "detail": v["detail"], "count": v["count"]} for k, v in cov_body.get("potential_findings", {}).items()},
+                "potential_findings": {k: {"aspect": v["aspect"], "key": v["key"], "detail": v["detail"], "count": v["count"], "classes": v["classes"][:8]} for k, v in cov_body.get("potential_findings", {}).items()},
                 "format_notes": cov_body["notes"]})
     for n in cov_body["notes"]:
         ctx.notes.append(n)
